@@ -125,7 +125,8 @@ static void setup(RegP *p, int tr, int mem16, size_t blocksize, Arr *a)
 {
     memset(p, 0xA5, sizeof *p);          /* initialisation must not rely on a zeroed instance */
     regp_init(p);
-    if (mem16) regp_use_memory16(p, r16, w16); else regp_use_memory8(p, r8, w8);
+    if (mem16 == 2) { /* nothing attached: the default after init */ }
+    else if (mem16) regp_use_memory16(p, r16, w16); else regp_use_memory8(p, r8, w8);
     B.ws = mem16 ? 2 : 1;
     Source s = OCTET_SOURCE_INIT(src_octet, a);
     if (srcflavour) { Source c = CHUNK_SOURCE_INIT(src_chunk, a); s = c; }
@@ -279,6 +280,23 @@ void adapter_exec(Ev *ev)
         }
         obs(ev, -7);
         for (size_t i = 0; i < outn; i++) obs(ev, out[i]);
+        return;
+    }
+    if (ev_is(ev, "isect")) {
+        RPRange a = { (uint32_t)ev->a[0], (size_t)ev->a[1] }, b = { (uint32_t)ev->a[2], (size_t)ev->a[3] };
+        RPRange r = regp_range_intersection(&a, &b);
+        RPFrame f; memset(&f, 0, sizeof f);
+        f.header.address = a.address; f.header.blocksize = (uint32_t)a.size;
+        RPRange r2 = regp_frame_intersection(&f, &b);
+        obs(ev, r.address); obs(ev, (long long)r.size);
+        obs(ev, (r2.address == r.address && r2.size == r.size) ? (regp_empty_intersection(&r) ? 1 : 0) : -9);
+        return;
+    }
+    if (ev_is(ev, "pred")) {
+        RPFrame f; memset(&f, 0, sizeof f);
+        f.header.type = ev->a[0] == 99 ? RP_FRAME_INVALID : (RPFrameType)ev->a[0];
+        obs(ev, regp_is_valid(&f)); obs(ev, regp_is_response(&f)); obs(ev, regp_is_read_request(&f)); obs(ev, regp_is_write_request(&f));
+        obs(ev, regp_is_read_response(&f)); obs(ev, regp_is_write_response(&f)); obs(ev, regp_is_meta_message(&f));
         return;
     }
     if (ev_is(ev, "rx")) {
